@@ -50,6 +50,105 @@ def ok_reachable(prog, rf, env):
     return out
 
 
+# families whose empty image is the image of a sketch straight out of a public constructor: (is this abstract state that sketch?,
+# constructor names to look for on the reader's owner type)
+FRESH = {
+    "cpc": (lambda st: st.get("empty") and st.get("has_hip"), ("with_seed", "new")),
+    "countmin": (lambda st: st.get("empty"), ("with_seed", "new")),
+    "tdigest": (lambda st: st.get("n") == 0 or st.get("empty"), ("make", "try_new", "new")),
+}
+
+
+def _owner_builds(prog, g, owner):
+    out = []
+    for b in g.blocks:
+        if b.cleanup:
+            continue
+        for i, st in enumerate(b.stmts):
+            if st[0] == "=" and st[2][0] == "agg" and isinstance(st[2][1], (list, tuple)) and st[2][1][0] == "adt" and st[2][1][1] == owner:
+                out.append((b.idx, i, st))
+    return out
+
+
+def fresh_state_rule(prog, res, fam, rf, ctor_names, stream, label):
+    """C11.E: after the reader has consumed the image of a freshly constructed sketch, every numeric field of the object it builds
+    (evaluated under the values it has just read) equals the field the constructor builds for the same configuration.  A field that
+    the image does not carry and the reader fills with its own default is where the two can drift apart (the next update then
+    starts from a state no constructor produces)."""
+    owner = rf.owner
+    env = dict(proto.LAST_ENV)
+    env["@prog"] = prog
+    env["@ieee"] = True
+    # landing names of the reads: configuration values the constructor is called with
+    landed = {}
+    for (ti, rs) in proto.ALIGN:
+        if rs.extra and ti < len(stream) and isinstance(stream[ti][1], (int, float)) and not isinstance(stream[ti][1], bool):
+            landed[rs.extra] = stream[ti][1]
+    # the reader-side construction reached under the values read
+    cands = []
+    for g in [rf] + [x for x in C.reach_from(prog, [rf.id]) if x.id != rf.id and x.id.split("::")[0] == rf.id.split("::")[0] and not x.promoted]:
+        sg = None
+        for (b, i, st) in _owner_builds(prog, g, owner):
+            sg = sg or sym.Sym(prog, g)
+            if C.path_pred(sg, b)(env) is not False:        # not refuted by the values read (a seed comparison stays unknown)
+                cands.append((g, sg, b, i, st))
+    if len(cands) != 1:
+        return
+    rbuild = cands[0]
+    # the constructor-side construction
+    cbuild = None
+    for nm in ctor_names:
+        for cf in prog.fns.values():
+            if cf.promoted or cf.owner != owner or cf.item_name != nm or cf.id == rbuild[0].id:
+                continue
+            bs = _owner_builds(prog, cf, owner)
+            if len(bs) == 1:
+                cbuild = (cf, sym.Sym(prog, cf), bs[0])
+                break
+        if cbuild:
+            break
+    if cbuild is None:
+        return
+    cf, sc, (cb, ci, cst) = cbuild
+    cenv = {"@prog": prog, "@ieee": True}
+    for i in range(1, cf.argc + 1):
+        nm = cf.local_name(i)
+        if nm in landed:
+            cenv[nm] = landed[nm]
+    g, sg, b, i, st = rbuild
+    # re-assigned locals of the reader (`let mut kxp = 0.0; if has_hip { kxp = read }`): their value on the path this image takes
+    vars_ = {}
+    for rop in st[2][2]:
+        try:
+            for y in sym.walk(sg.at(b, i).operand(rop)):
+                if y[0] == "var":
+                    vars_[y[1]] = show(y)
+        except Exception:
+            pass
+    if vars_:
+        for l, v in C.reaching_values(prog, g, sg, b, vars_.keys(), env).items():
+            env[vars_[l]] = v
+    rnames, rops = st[2][1][4], st[2][2]
+    cnames, cops = cst[2][1][4], cst[2][2]
+    for fname, rop in zip(rnames, rops):
+        if fname not in cnames:
+            continue
+        cop = cops[list(cnames).index(fname)]
+        try:
+            rv = formula.evaluate(sg.at(b, i).operand(rop), env)
+            cv = formula.evaluate(sc.at(cb, ci).operand(cop), cenv)
+        except (formula.Uneval, TypeError, IndexError, ZeroDivisionError, KeyError):
+            continue
+        if isinstance(rv, bool) or isinstance(cv, bool) or not isinstance(rv, (int, float)) or not isinstance(cv, (int, float)):
+            continue
+        res.obligations += 1
+        if rv == cv:
+            res.discharged += 1
+        else:
+            res.violate("C11.E", "C11.E|%s|%s" % (fam, fname), "%s: deserialize() of the image of a freshly constructed sketch (%s) builds `%s` = %r, the constructor %s "
+                        "builds %r: the restored sketch does not continue like the one that was serialized" % (fam, label, fname, rv, cf.id, cv), g.id, st[3])
+
+
 def run(prog, ctx):
     res = Result("C11")
     total = 0
@@ -116,6 +215,13 @@ def run(prog, ctx):
                 decided += 1
                 if total <= 3:
                     res.sample({"rule": "C11.L", "family": fam, "state": label, "tokens": [k for k, v in stream]})
+                # C11.E the image of a freshly constructed sketch restores what the constructor builds
+                fresh = FRESH.get(fam)
+                if fresh is not None and fresh[0](st):
+                    try:
+                        fresh_state_rule(prog, res, fam, rf, fresh[1], stream, label)
+                    except Exception as ex:
+                        res.extra.setdefault("undecided_items", []).append("C11.E|%s not evaluable: %r" % (fam, ex))
             elif verdict is None:
                 res.undecided += 1
                 res.extra.setdefault("undecided_reasons", set()).add("%s: %s" % (fam, detail))
